@@ -5,7 +5,7 @@ def main(tier, args):
     exe = vf.build("C08/handles", [vf.VERIF + "/checks/C08/harness.cpp"], vf.module_sources("util/fd.cpp"), mode="asan",
                    plain_srcs=[vf.VERIF + "/engine/sched/log_stub.cpp"])
     # depth per sub-harness: the cabinet space grows fastest (every alloc adds a token that is kept forever)
-    dc, dp, df, dl, nparts, fdcfg = (9, 12, 8, 45, 6, ("cf", "sys")) if tier == "quick" else (12, 15, 10, 1200, 8, ("cf", "sys", "cf:4:3", "sys:4:3"))
+    dc, dp, df, dl, nparts, fdcfg = (9, 12, 8, 45, 6, ("cf", "sys")) if tier == "quick" else (13, 16, 10, 1200, 12, ("cf", "sys", "cf:4:3", "sys:4:3"))
     cmds = [("cabinet/%d" % k, [exe, "cabinet", str(dc), "%d/%d" % (k, nparts)]) for k in range(nparts)]
     cmds += [("pool/keep%s" % k, [exe, "pool", str(dp), k]) for k in ("0", "1", "2", "max")]
     cmds += [("fd/%s" % m, [exe, "fd", str(df), m]) for m in fdcfg]
@@ -14,19 +14,21 @@ def main(tier, args):
         cmds = [c for c in cmds if c[0].startswith(only)]
     res = vf.Result()
     log = open(vf.BUILD + "/C08/log.txt", "w")
-    vf.run_procs(res, cmds, env={"VERIF_DEADLINE_S": str(dl)}, log=log)
+    vf.run_procs(res, cmds, env={"VERIF_DEADLINE_S": str(dl),
+                                      # a UBSan report raises SIGABRT so that the crash reporter prints the history being evaluated
+                                      "UBSAN_OPTIONS": "print_stacktrace=1:abort_on_error=1"}, log=log)
     vf.finish(PID, tier, res, t0,
               rule="three BFS explorations over ALL op histories on the real classes, canonical-state dedup, oracle after every op + ASan/UBSan. "
-                   "(a) Cabinet depth<=%d, reserve in {0,4}: alloc, free(t)/update(t) for every token ever issued (stale included), clear, "
+                   "(a) Cabinet depth<=%d (search dealt out to %d processes by canonical state at depth 5; a state reached from two shares is counted twice): alloc, free(t)/update(t) for every token ever issued (stale included), clear, "
                    "foreach with removal (all/even/odd/next-to-visit/previously-visited/none), null-token free/update; after every op at(t) and "
                    "operator[] for every token ever issued, size(), pairwise distinct live tokens; state = last_id_, first_free_, count_, all cells "
                    "(id or free link), all tokens held with model status. "
                    "(b) ObjectPool<Probe> depth<=%d, keep_number in {0,1,2,default max}: alloc, free(each live object); probe counts ctor/dtor and stamps a "
                    "live flag over the bytes the free list reuses; state = free_number_, parked list in order, live blocks (named by birth order). "
-                   "(c) util::Fd depth<=%d, 3 handle variables x 2 fake descriptors (1000/1001, re-issued only after close), recorded by an injected "
+                   "(c) util::Fd depth<=%d (reaches a fixpoint earlier), %s handle variables x fake descriptors (1000.., re-issued only after close), recorded by an injected "
                    "CloseFunc (cf) or an interposed ::close (sys): open, default/copy/move construct, copy/move assign, self-assign, swap, self-swap, reset, "
                    "close, destroy; every history ends by destroying all handles; state = variable->record map, per record fd/ref_count/close_func"
-                   % (dc, dp, df),
+                   % (dc, nparts, dp, df, "3x2" if tier == "quick" else "3x2 and 4x3"),
               assumptions=["Cabinet ids do not wrap (2^64 allocations are out of reach); objects stored are non-null; foreach callbacks only remove",
                            "object identity is not part of the cabinet canonical state (no control flow depends on obj_ptr)",
                            "ObjectPool: single probe type (16 bytes, pointer-aligned), constructors do not throw, malloc never fails",
